@@ -110,6 +110,7 @@ type WriterPlan struct {
 	Torn   bool `json:"torn"`    // the failing write accepts half of its bytes
 	Short  bool `json:"short"`   // write #FailAt accepts half of its bytes and returns a nil error (one-off)
 	Once   bool `json:"once"`    // only write #FailAt fails; later writes succeed again (transient failure)
+	Full   bool `json:"full"`    // the failing write accepts all bytes AND returns the error (n == len(p), err != nil)
 	ErrVariant int `json:"err_variant"`
 }
 
@@ -161,8 +162,13 @@ func (w *simWriter) Write(p []byte) (int, error) {
 		first := !w.Fired
 		w.Fired = true
 		acc := 0
+		if w.plan.Full {
+			acc = len(p)
+		}
 		if first && w.plan.Torn && len(p) > 1 {
 			acc = len(p) / 2
+		}
+		if acc > 0 {
 			w.segs = append(w.segs, Seg{task, len(w.buf), acc})
 			w.buf = append(w.buf, p[:acc]...)
 		}
